@@ -279,7 +279,9 @@ class IdempotencyStore(Entity):
     def _schedule_cleanup(self) -> Event:
         """Create a daemon cleanup event."""
         return Event(
-            time=self.now + Duration.from_seconds(self._cleanup_interval),
+            # A positive cleanup interval below the 1 ns clock resolution truncates to
+            # a zero Duration; keep the cleanup loop moving forward in time.
+            time=self.now + max(Duration.from_seconds(self._cleanup_interval), Duration(1)),
             event_type=f"_is_cleanup::{self.name}",
             target=self,
             daemon=True,
